@@ -40,6 +40,12 @@ def str_of(it, x):
         if isinstance(f, PFunc):
             return it.call(PBound(f, x), [], {})
         return f"<{x.cls.name} object>"
+    if type(x).__name__ == "SymIP":
+        from .ip import IPText
+
+        return IPText(x)
+    if type(x).__name__ in ("IPText", "ISOText"):
+        return x
     if isinstance(x, SInt):
         note("str(int)", "str() of an integer is an injective uninterpreted function")
         return SStr(str_of_int(x.t))
